@@ -2,7 +2,7 @@ SPECIFICATION Spec
 CONSTANTS
   MaxN = 4
   MaxOps = 3
-  MaxAttempt = 4
+  MaxAttempt = 3
   Kinds = {"signing", "dkg"}
   Slots = {1, 2}
   AllCalls = FALSE
